@@ -443,7 +443,7 @@ func (m *MemoryBackend) Terminate(client *Client) error {
 	defer m.globalMutex.Unlock()
 
 	// get session
-	sess := client.Session().(*memorySession)
+	sess, _ := client.Session().(*memorySession)
 
 	// release session if available
 	if sess != nil {
